@@ -1191,6 +1191,23 @@ class FX:
                 finally:
                     self.loops.pop()
             return None
+        # a short literal list of tuples (e.g. a layout): one iteration per element, names bound to the element's parts
+        lit_ast = it
+        if isinstance(it, ast.Name) and isinstance(env.get(it.id), (ast.List, ast.Tuple)):
+            lit_ast = env[it.id]
+        if isinstance(lit_ast, (ast.List, ast.Tuple)) and 0 < len(lit_ast.elts) <= 16 and isinstance(st.target, (ast.Tuple, ast.List)) and \
+                not st.orelse and all(isinstance(e, (ast.Tuple, ast.List)) and len(e.elts) == len(st.target.elts) and
+                                      not any(isinstance(x, ast.Starred) for x in e.elts) for e in lit_ast.elts) and \
+                all(isinstance(t, ast.Name) for t in st.target.elts):
+            for e in lit_ast.elts:
+                for t, x in zip(st.target.elts, e.elts):
+                    env[t.id] = x if isinstance(x, ast.Constant) else self.canon(x, env)
+                self.loops.append((norm(st.target), "=" + norm(e)[:60]))
+                try:
+                    self._exec_block(st.body, env)
+                finally:
+                    self.loops.pop()
+            return None
         tab = self._dict_items(it, env)
         if tab is not None and isinstance(st.target, ast.Tuple) and len(st.target.elts) == 2 and \
                 all(isinstance(t, ast.Name) for t in st.target.elts):
